@@ -105,6 +105,14 @@ class Scenario:
                      "expires": rng.choice([10, 20]), "tamper": rng.choices(["none", "cert", "sig"], weights=[7, 1, 1])[0]}
                 if c not in kinds:
                     kinds.append(c)
+            if rng.random() < 0.3 and len(self.sids) > 1:
+                # the combination that separates "some valid certificate names this server" from "this server's
+                # certificate is valid": an own certificate that expires early next to a later one issued to another server
+                sg = rng.choice(self.keys) if self.keys and rng.random() < 0.8 else rng.choice(SIGNERS)
+                kinds = [{"signer": sg, "subject": s, "expires": 10, "tamper": "none"},
+                         {"signer": sg, "subject": rng.choice([o for o in self.sids if o != s]), "expires": 20, "tamper": "none"}]
+                if rng.random() < 0.5:
+                    kinds.reverse()
             self.certs[s] = kinds
             real = []
             for c in kinds:
